@@ -236,16 +236,13 @@ func (tr *FnTrans) copyRange(et types.Type, from *Heap, dstArr, dstOff, srcArr, 
 			old := vc.hget(from, comp)
 			nw := vc.fresh(comp+"@cp", vc.compSort[comp])
 			vc.wellFormedComp(comp, nw)
-			er := func(a, j string) string { return vc.elemRef(et, a, j) }
+			vc.erefDecls()
+			isDst := isElemOf("r", dstArr, dstOff, sAdd(dstOff, n))
+			srcRef := sApp("eref", srcArr, sAdd(sSub(sApp("erefidx", sApp("gid", "r")), dstOff), srcOff))
 			// copied part
-			tr.fact(fmt.Sprintf("(forall ((j Int)) (! (=> (and (<= 0 j) (< j %s)) (= (select %s %s) (select %s %s))) :pattern (%s)))",
-				n, nw, er(dstArr, sAdd(dstOff, "j")), old, er(srcArr, sAdd(srcOff, "j")), er(dstArr, sAdd(dstOff, "j"))))
+			tr.fact(fmt.Sprintf("(forall ((r Int)) (! (=> %s (= (select %s r) (select %s %s))) :pattern ((select %s r))))", isDst, nw, old, srcRef, nw))
 			// frame: all other objects unchanged
-			ia := qsym("eref_arr$" + typeKey(et))
-			ii := qsym("eref_idx$" + typeKey(et))
-			name := qsym("eref$" + typeKey(et))
-			tr.fact(fmt.Sprintf("(forall ((r Int)) (! (=> (not (and (= r (%s (%s r) (%s r))) (= (%s r) %s) (<= %s (%s r)) (< (%s r) (+ %s %s)))) (= (select %s r) (select %s r))) :pattern ((select %s r))))",
-				name, ia, ii, ia, dstArr, dstOff, ii, ii, dstOff, n, nw, old, nw))
+			tr.fact(fmt.Sprintf("(forall ((r Int)) (! (=> (not %s) (= (select %s r) (select %s r))) :pattern ((select %s r))))", isDst, nw, old, nw))
 			tr.cur.m[comp] = nw
 		}
 		return
@@ -258,8 +255,8 @@ func (tr *FnTrans) copyRange(et types.Type, from *Heap, dstArr, dstOff, srcArr, 
 	if r, ok := vc.w.compRange[comp]; ok {
 		tr.vc.decl("wf:"+inner, fmt.Sprintf("(assert (forall ((j Int)) (! (and (<= %s (select %s j)) (<= (select %s j) %s)) :pattern ((select %s j)))))", sBig(r[0]), inner, inner, sBig(r[1]), inner))
 	}
-	tr.fact(fmt.Sprintf("(forall ((j Int)) (! (=> (and (<= 0 j) (< j %s)) (= (select %s (+ %s j)) (select (select %s %s) (+ %s j)))) :pattern ((select %s (+ %s j)))))",
-		n, inner, dstOff, old, srcArr, srcOff, inner, dstOff))
+	tr.fact(fmt.Sprintf("(forall ((j Int)) (! (=> (and (<= %s j) (< j (+ %s %s))) (= (select %s j) (select (select %s %s) (+ (- j %s) %s)))) :pattern ((select %s j))))",
+		dstOff, dstOff, n, inner, old, srcArr, dstOff, srcOff, inner))
 	if keepFromArr != "" {
 		tr.fact(fmt.Sprintf("(forall ((j Int)) (! (=> (not (and (<= %s j) (< j (+ %s %s)))) (= (select %s j) (select (select %s %s) j))) :pattern ((select %s j))))",
 			dstOff, dstOff, n, inner, cur, keepFromArr, inner))
